@@ -1203,3 +1203,69 @@ Proof.
     rewrite K1 in T, Dl. split; [exact T|]. split; [exact Dl|].
     intro Hn. destruct (Hnew Hn) as (_ & _ & P & R). split; assumption.
 Qed.
+
+(* =========================================================================================== *)
+(* Part 8.  Corollaries in the vocabulary of the property text; the pinned tree.               *)
+
+Lemma recorded_aggregator_spec : forall t ok ds s c d cur,
+  consistent_duties ds -> digests_ok ds ->
+  duty_for ok ds s c d -> selected t d = true ->
+  exists e d', find_sub s c (subscription_info t ok ds) = Some e /\ s_agg e = true /\
+    duty_for ok ds s c d' /\ selected t d' = true /\ s_val e = d_val d' /\ s_sig e = d_sig d' /\
+    (cur < s -> In (to_subscription e) (to_submit cur (subscription_info t ok ds))).
+Proof.
+  intros t ok ds s c d cur C G Hd Hs.
+  assert (Hagg : agg_of t (sort_duties ds) d = true).
+  { rewrite agg_of_selected; [exact Hs|exact C|exact G|apply Hd]. }
+  destruct (recorded_aggregator t ok ds s c d Hd Hagg) as (e & d' & F & A & Hd' & He & Ha').
+  exists e, d'. split; [exact F|]. split; [exact A|]. split; [exact Hd'|]. split.
+  - rewrite <- agg_of_selected with (ds := ds); [exact Ha'|exact C|exact G|apply Hd'].
+  - rewrite He. cbn [mk_sub s_val s_sig]. split; [reflexivity|]. split; [reflexivity|].
+    intro Hc. apply in_to_submit. exists (mk_sub t (sort_duties ds) d').
+    rewrite <- He. apply find_sub_some in F as (Hi & Hsl & _). rewrite Hsl. auto.
+Qed.
+
+Lemma past_duties_do_not_matter : forall t ok past ds cur,
+  (forall d, In d past -> d_slot d <= cur) ->
+  to_submit cur (subscription_info t ok (past ++ ds)) = to_submit cur (subscription_info t ok ds).
+Proof.
+  intros t ok past ds cur H.
+  rewrite (submitted_independent_of_past' t ok (past ++ ds)), (submitted_independent_of_past' t ok ds).
+  rewrite filter_app.
+  replace (filter (fun d => cur <? d_slot d) past) with (@nil duty); [reflexivity|].
+  symmetry. induction past as [|x past IH]; [reflexivity|]. cbn [filter].
+  assert (Hx : d_slot x <= cur) by (apply H; left; reflexivity).
+  destruct (N.ltb_spec cur (d_slot x)); [lia|]. apply IH. intros d Hd. apply H. right. exact Hd.
+Qed.
+
+(* The pinned tree's submission: anything not in the future suppresses the whole call. *)
+Lemma pinned_submit_none_iff : forall cur info,
+  to_submit_pinned cur info = None <-> exists e, In e info /\ s_slot e <= cur.
+Proof.
+  intros cur info. unfold to_submit_pinned.
+  destruct (forallb (fun e => cur <? s_slot e) info) eqn:F.
+  - split; [discriminate|]. intros (e & He & Hc). rewrite forallb_forall in F.
+    apply F in He. apply N.ltb_lt in He. lia.
+  - split; [|reflexivity]. intros _.
+    assert (N : ~ (forallb (fun e => cur <? s_slot e) info = true)) by congruence.
+    rewrite forallb_forall in N.
+    induction info as [|x info IH]; [exfalso; apply N; intros ? []|].
+    destruct (N.ltb_spec cur (s_slot x)) as [L|L].
+    + destruct IH as (e & He & Hc).
+      * cbn [forallb] in F. apply andb_false_iff in F as [F|F]; [|exact F].
+        apply N.ltb_ge in F. lia.
+      * intro Hall. apply N. intros y [<-|Hy]; [apply N.ltb_lt; exact L|apply Hall; exact Hy].
+      * exists e. split; [right; exact He|exact Hc].
+    + exists x. split; [left; reflexivity|exact L].
+Qed.
+
+Lemma pinned_drops_everything : forall t ok ds cur d,
+  In d ds -> ok (d_slot d) = true -> d_slot d <= cur ->
+  to_submit_pinned cur (subscription_info t ok ds) = None.
+Proof.
+  intros t ok ds cur d Hd Hok Hc. apply pinned_submit_none_iff.
+  assert (K : In (d_slot d, d_comm d) (map skey (subscription_info t ok ds))).
+  { apply info_keys. exists d. unfold duty_for. auto. }
+  apply in_map_iff in K as (e & Ke & He). exists e. split; [exact He|].
+  unfold skey in Ke. injection Ke as K1 K2. rewrite K1. exact Hc.
+Qed.
